@@ -107,6 +107,33 @@ def load (g : Graph) (tolerant : Bool) : Nat → List Nat → Nat → Out Unit
     | some (.node _ fields) =>
       fields.foldl (fun acc f => seqOut acc (fun _ => fieldOutcome g tolerant f (load g tolerant fuel (k :: chain) f.target))) (.ok ())
 
+/-- **`load` with the work counted**: the same function, returning also the number of `get` calls it made (the
+    call itself included). `load` bounds the *depth* of the recursion (the guard, `maxNest`); nothing in it bounds
+    the *work*: there is no memo, so an object that is reached along p paths is loaded p times. This is the
+    resolver **without a cache**; with the cache a second `get` of the same (number, type) is answered from the
+    cache. -/
+def loadN (g : Graph) (tolerant : Bool) : Nat → List Nat → Nat → Out Unit × Nat
+  | 0, _, _ => (.oof, 0)
+  | fuel + 1, chain, k =>
+    if k ∈ chain then (.err, 1) else
+    if chain.length ≥ maxNest then (.err, 1) else
+    match g[k]? with
+    | none => (.err, 1)
+    | some .bad => (.err, 1)
+    | some .missing => (.err, 1)
+    | some (.node _ fields) =>
+      fields.foldl (fun acc f =>
+        match acc.1 with
+        | .ok _ =>
+          let r := loadN g tolerant fuel (k :: chain) f.target
+          (fieldOutcome g tolerant f r.1, acc.2 + r.2)
+        | _ => acc) (.ok (), 1)
+
+/-- a ladder: object `i < n` has two required fields that are both object `i + 1`; object `n` is a leaf.
+    `n + 1` objects, acyclic, every reference valid. -/
+def ladder (n : Nat) : Graph :=
+  (List.range n).map (fun i => Obj.node 0 [⟨i + 1, false, none, false⟩, ⟨i + 1, false, none, false⟩]) ++ [Obj.node 0 []]
+
 -- ---------------------------------------------------------------------------------------------------
 -- objects whose value is a reference
 
